@@ -81,6 +81,8 @@ func historyAlphabet(sig string, thorough bool) []Letter {
 		add(one(sig, 0, 0, 9))                    // zero-valued attrs (nulls in existing columns)
 		add(one(sig, 7, 5, 21, 15, 18))           // everything, events with "" name, zero link
 		add(Letter{Sig: sig, Ramp: &Ramp{Kind: "names", N: 130, Uses: 1, Base: 0}})
+		add(one(sig, 1, 1, 26, 26, 26))      // uniform groups: stale encoder state between batches shows up when repeated
+		add(one(sig, 1, 1, 0, 12, 0, 8, 23)) // records without and with related data mixed (null ids between ids)
 		if thorough {
 			add(Letter{Sig: sig, Ramp: &Ramp{Kind: "names", N: 130, Uses: 5, Base: 1000}})
 			add(Letter{Sig: sig, Ramp: &Ramp{Kind: "attrs", N: 130, Uses: 1, Base: 2000}})
@@ -100,6 +102,8 @@ func historyAlphabet(sig string, thorough bool) []Letter {
 		add(one(sig, 0, 0, 17, 18))
 		add(one(sig, 7, 5, 20, 21, 16))
 		add(Letter{Sig: sig, Ramp: &Ramp{Kind: "bodies", N: 130, Uses: 1, Base: 0}})
+		add(one(sig, 1, 1, 22, 22, 22))
+		add(one(sig, 1, 1, 0, 19, 2, 15, 23))
 		if thorough {
 			add(Letter{Sig: sig, Ramp: &Ramp{Kind: "bodies", N: 130, Uses: 5, Base: 1000}})
 			add(Letter{Sig: sig, Ramp: &Ramp{Kind: "attrs", N: 130, Uses: 1, Base: 2000}})
@@ -119,6 +123,8 @@ func historyAlphabet(sig string, thorough bool) []Letter {
 		add(Letter{Sig: sig, Groups: []Group{{R: 1, Scopes: []Scope{{S: 1, Items: []int{6}}}}, {R: 2, Scopes: []Scope{{S: 1, Items: []int{3}}}}, {R: 3, Scopes: []Scope{{S: 1, Items: []int{4, 5}}}}}})
 		add(one(sig, 7, 5, 2, 10, 13, 20, 28, 30))
 		add(Letter{Sig: sig, Ramp: &Ramp{Kind: "names", N: 130, Uses: 1, Base: 0}})
+		add(one(sig, 1, 1, 40, 41, 40))
+		add(one(sig, 1, 1, 42, 43, 44))
 		if thorough {
 			add(Letter{Sig: sig, Ramp: &Ramp{Kind: "attrs", N: 130, Uses: 1, Base: 2000}})
 			add(Letter{Sig: sig, Ramp: &Ramp{Kind: "units", N: 130, Uses: 1, Base: 3000}})
@@ -229,6 +235,13 @@ func roundtripPlan(sig, tier string) []Unit {
 			}
 		}
 	}
+	// pipelined: every batch is produced before any is decoded (a BatchArrowRecords must stay valid)
+	for _, h := range histories(alpha, 2) {
+		units = append(units, Unit{Opts: def, Mon: mon, Tag: "H2pipelined", History: h, Pipelined: true})
+	}
+	for _, h := range histories(alpha[:6], 3) {
+		units = append(units, Unit{Opts: def, Mon: mon, Tag: "H3pipelined", History: h, Pipelined: true})
+	}
 	// a refused (oversized) batch must not leak into the following ones
 	for _, big := range []Big{{Kind: "resources", N: 65537}, {Kind: "items", N: 65537}, {Kind: "scopes", N: 65537}} {
 		b := big
@@ -240,7 +253,8 @@ func roundtripPlan(sig, tier string) []Unit {
 	for _, thr := range []float64{0, 0.3, 1e18} {
 		o := u8
 		o.Reset = thr
-		for _, h := range histories(alpha[len(alpha)-4:], 3) {
+		u8alpha := []Letter{alpha[9], alpha[10], alpha[11], alpha[12]}
+		for _, h := range histories(u8alpha, 3) {
 			units = append(units, Unit{Opts: o, Mon: mon, Tag: "H3u8", History: h})
 		}
 	}
